@@ -121,6 +121,7 @@ func (c *consumerGroup) Errors() <-chan error { return c.errors }
 // Close implements ConsumerGroup.
 func (c *consumerGroup) Close() (err error) {
 	c.closeOnce.Do(func() {
+		verifEvtKV("lc.grp.closed.close", "", verifID(c), 0)
 		close(c.closed)
 
 		// leave group
@@ -130,15 +131,18 @@ func (c *consumerGroup) Close() (err error) {
 
 		// drain errors
 		go func() {
+			verifEvtKV("lc.grp.errors.close", "", verifID(c), 0)
 			close(c.errors)
 		}()
 		for e := range c.errors {
 			err = e
 		}
 
+		verifEvtKV("lc.grp.client.close", "", verifID(c), 0)
 		if e := c.client.Close(); e != nil {
 			err = e
 		}
+		verifEvtKV("lc.grp.close.done", "", verifID(c), 0)
 	})
 	return
 }
@@ -154,6 +158,8 @@ func (c *consumerGroup) Consume(ctx context.Context, topics []string, handler Co
 
 	c.lock.Lock()
 	defer c.lock.Unlock()
+	verifEvtKV("lc.grp.consume.lock", "", verifID(c), 0)
+	defer verifEvtKV("lc.grp.consume.unlock", "", verifID(c), 0)
 
 	// Quick exit when no topics are provided
 	if len(topics) == 0 {
@@ -383,6 +389,8 @@ func (c *consumerGroup) balance(members map[string]ConsumerGroupMemberMetadata) 
 func (c *consumerGroup) leave() error {
 	c.lock.Lock()
 	defer c.lock.Unlock()
+	verifEvtKV("lc.grp.leave.lock", "", verifID(c), 0)
+	defer verifEvtKV("lc.grp.leave.unlock", "", verifID(c), 0)
 	if c.memberID == "" {
 		return nil
 	}
@@ -434,6 +442,7 @@ func (c *consumerGroup) handleError(err error, topic string, partition int32) {
 	default:
 	}
 
+	verifEvtKV("lc.grp.errors.send", "", verifID(c), 0)
 	select {
 	case c.errors <- err:
 	default:
@@ -573,6 +582,7 @@ func newConsumerGroupSession(ctx context.Context, parent *consumerGroup, claims 
 	}
 
 	// start heartbeat loop
+	verifEvtKV("lc.sess.start", "", verifID(sess), verifID(parent))
 	go sess.heartbeatLoop()
 
 	// create a POM for each claim
@@ -602,10 +612,12 @@ func newConsumerGroupSession(ctx context.Context, parent *consumerGroup, claims 
 	// start consuming
 	for topic, partitions := range claims {
 		for _, partition := range partitions {
+			verifEvtKV("lc.sess.claim.add", "", verifID(sess), 0)
 			sess.waitGroup.Add(1)
 
 			go func(topic string, partition int32) {
 				defer sess.waitGroup.Done()
+				defer verifEvtKV("lc.sess.claim.done", "", verifID(sess), 0)
 
 				// cancel the as session as soon as the first
 				// goroutine exits
@@ -700,33 +712,41 @@ func (s *consumerGroupSession) consume(topic string, partition int32) {
 
 func (s *consumerGroupSession) release(withCleanup bool) (err error) {
 	// signal release, stop heartbeat
+	verifEvtKV("lc.sess.release", "", verifID(s), 0)
 	s.cancel()
 
 	// wait for consumers to exit
 	s.waitGroup.Wait()
+	verifEvtKV("lc.sess.claims.joined", "", verifID(s), 0)
 
 	// perform release
 	s.releaseOnce.Do(func() {
 		if withCleanup {
+			verifEvtKV("lc.sess.cleanup", "", verifID(s), 0)
 			if e := s.handler.Cleanup(s); e != nil {
 				s.parent.handleError(e, "", -1)
 				err = e
 			}
 		}
 
+		verifEvtKV("lc.sess.offsets.close", "", verifID(s), verifID(s.offsets))
 		if e := s.offsets.Close(); e != nil {
 			err = e
 		}
 
+		verifEvtKV("lc.sess.hbdying.close", "", verifID(s), 0)
 		close(s.hbDying)
 		<-s.hbDead
+		verifEvtKV("lc.sess.hbdead.recv", "", verifID(s), 0)
 	})
 
+	verifEvtKV("lc.sess.release.done", "", verifID(s), 0)
 	return
 }
 
 func (s *consumerGroupSession) heartbeatLoop() {
 	defer close(s.hbDead)
+	defer verifEvtKV("lc.sess.hbdead.close", "", verifID(s), 0)
 	defer s.cancel() // trigger the end of the session on exit
 
 	pause := time.NewTicker(s.parent.config.Consumer.Group.Heartbeat.Interval)
